@@ -70,8 +70,84 @@ fn count_separator_strings(v: &Value) -> u64 {
     }
 }
 
+/// An adversarially chosen salt queue ("forall salt queues"): eight flat claims and eight salts
+/// such that the digests of two of the disclosures agree in their first six characters. Found
+/// once per process by issuing with counter salts until two different claims collide (birthday
+/// search, ~2^18 digests); None if the search does not succeed.
+fn colliding_queue() -> Option<&'static (Value, Vec<String>)> {
+    static Q: std::sync::OnceLock<Option<(Value, Vec<String>)>> = std::sync::OnceLock::new();
+    Q.get_or_init(|| {
+        let claims = json!({"iss": "https://issuer.example/A", "exp": 4_000_000_000u64, "n0": 0, "n1": "one", "n2": [2], "n3": {"k": 3}, "n4": null, "n5": true, "n6": 6.5, "n7": ""});
+        let strat = gen::gen_strategy(&mut Rng(1), &claims, gen::StratKind::TopLevel);
+        let mut seen: std::collections::HashMap<String, (usize, String)> = Default::default();
+        for i in 0..60_000u64 {
+            let salts: Vec<String> = (0..8).map(|k| format!("c{i}x{k}")).collect();
+            fill_salts(&salts);
+            let mut issuer = api::new_issuer(Alg::HS256, 0, true);
+            let out = api::issue(&mut issuer, &claims, &strat, None, false, Fmt::Compact);
+            fill_salts(&[]);
+            let parts = match out {
+                Outcome::Ok(t) => crate::model::Parts::parse(Fmt::Compact, &t).ok()?,
+                _ => return None,
+            };
+            if parts.disclosures.len() != 8 {
+                return None;
+            }
+            for (k, d) in parts.disclosures.iter().enumerate() {
+                let key = model::digest_of(d)[..6].to_string();
+                if let Some((k2, s2)) = seen.get(&key) {
+                    if *k2 != k {
+                        let mut q: Vec<String> = (0..8).map(|m| format!("other{m}")).collect();
+                        q[k] = salts[k].clone();
+                        q[*k2] = s2.clone();
+                        return Some((claims, q));
+                    }
+                }
+                seen.insert(key, (k, salts[k].clone()));
+            }
+        }
+        None
+    })
+    .as_ref()
+}
+
 fn one_case(ctx: &Ctx, case: u64, l: &mut Local) {
     let mut r = Rng::for_case(ctx.seed, STREAM, case);
+    if case % 4096 == 7 {
+        // the adversarial queue: digests that share a six-character prefix are still different digests
+        if let Some((claims, salts)) = colliding_queue() {
+            let strat = gen::gen_strategy(&mut Rng(1), claims, gen::StratKind::TopLevel);
+            for fmt in [Fmt::Compact, Fmt::Json] {
+                fill_salts(salts);
+                let mut issuer = api::new_issuer(Alg::HS256, 0, true);
+                let out = api::issue(&mut issuer, claims, &strat, None, false, fmt);
+                fill_salts(&[]);
+                let got = match out {
+                    Outcome::Ok(sd) => match api::holder_new(&sd, fmt) {
+                        Outcome::Ok(mut h) => match api::present(&mut h, &gen::select_all(claims), None) {
+                            Outcome::Ok(p) => api::verify(&p, &Resolver::Fixed(Alg::HS256, 0), None, fmt).out,
+                            o => o.map(|_| Value::Null),
+                        },
+                        o => o.map(|_| Value::Null),
+                    },
+                    o => o.map(|_| Value::Null),
+                };
+                l.evals += 1;
+                match got {
+                    Outcome::Ok(v) if v == *claims => l.count("roundtrip.colliding-prefix-queue.equal-to-model"),
+                    other => l.violate(Violation {
+                        subcheck: "roundtrip-fails".into(),
+                        class: "salt queue chosen so that two digests share a six-character prefix".into(),
+                        observed: other.panic_signature().unwrap_or_else(|| other.describe()).chars().take(200).collect(),
+                        case,
+                        detail: json!({"claims": claims, "salts": salts, "format": fmt.name()}),
+                    }),
+                }
+            }
+        } else {
+            l.count("colliding-prefix-queue.not-found");
+        }
+    }
     let mut cfg = Config::from_index(case);
     if r.chance(50) {
         cfg.profile = Profile::MetacharStrings;
